@@ -43,7 +43,7 @@ From RX.Proofs Require Import CharTablesProofs RejectProofs WfParseTok WfParseCh
 From RX.Spec Require CstU CstText CstNs CstFull CstFullS5.
 From RX.Proofs Require CstSoundP CstSoundPRDoc CstSoundPRCor.
 From RX.Spec Require CstFullS4 CstFullS6.
-From RX.Proofs Require KnownFindingsMore KnownFindingsD21 CstSound6P CstSound6 CstSound6U CstSound6uCor CstSound6a CstSound6aFinal CstSound6bFinal CstSound6rCor CstSound6c CstSound6cFinal CstSound6dFinal CstSound6eCor CstFullS6Main CstSound7 CstSound7Final CstSound8 CstSound8Final CstSound8Cor CstSound9 CstSound9Final CstSound10 CstSound10Final CstSound11 CstSound11Final CstSoundCr CstSoundCrLex2 CstSoundCrFinal CstSoundAll CstSound10eCor CstSoundAllCor CstFullRejSem CstFullRejTrace CstFullRejDoc CstFullRejMain CstFullNsRejMain.
+From RX.Proofs Require KnownFindingsMore KnownFindingsD21 CstSound6P CstSound6 CstSound6U CstSound6uCor CstSound6a CstSound6aFinal CstSound6bFinal CstSound6rCor CstSound6c CstSound6cFinal CstSound6dFinal CstSound6eCor CstFullS6Main CstSound7 CstSound7Final CstSound8 CstSound8Final CstSound8Cor CstSound9 CstSound9Final CstSound10 CstSound10Final CstSound11 CstSound11Final CstSoundCr CstSoundCrLex2 CstSoundCrFinal CstSoundAll CstSound10eCor CstSoundAllCor CstSoundAll11 CstSoundAll11Cor CstFullRejSem CstFullRejTrace CstFullRejDoc CstFullRejMain CstFullNsRejMain.
 From RX.Spec Require CstFullS11.
 From RX.Proofs Require CstFullS11Main CstFullRejS11Sem CstFullRejS11Doc CstFullRejS11Main CstFullRejS11NsMain NsRejDefs NsRejBuild.
 Open Scope N_scope.
@@ -514,8 +514,51 @@ Print Assumptions C08_parse_view_of_witness.
 
 End G18.
 
-(* ---- Proofs/CstSoundAllCor.v ---- *)
+(* ---- Proofs/CstSoundAll11Cor.v ---- *)
 Module G19.
+Import RX.Spec.CstFull. Import RX.Spec.CstFullS5. Import RX.Spec.CstFullS6. Import RX.Spec.CstFullS7. Import RX.Spec.CstFullS8. Import RX.Spec.CstFullS9. Import RX.Spec.CstFullS10. Import RX.Spec.CstFullS11. Import RX.Proofs.CstNsView. Import RX.Proofs.CstSoundP. Import RX.Proofs.CstSound6. Import RX.Proofs.CstSound6U. Import RX.Proofs.CstSound7. Import RX.Proofs.CstSound8. Import RX.Proofs.CstSound9. Import RX.Proofs.CstSound10. Import RX.Proofs.CstSound11. Import RX.Proofs.CstSoundCr. Import RX.Proofs.CstSoundCrFinal. Import RX.Proofs.CstSoundAll. Import RX.Proofs.CstSoundAll11. Import RX.Proofs.CstSoundAll11Cor.
+Theorem C08_parse_sound_all11_res :
+  forall text opt d,
+  in_fragment_all11 text = true -> allow_dtd opt = true -> parse text opt = Ok d ->
+  exists c : S6.doc, S11.wf_doc c = true /\ S11.render c = text /\
+    S11.distinct_decls_le c (N.to_nat 65535) /\ 1 + N.of_nat (S11.ns_cost c) <= u32_max.
+Proof. exact parse_sound_all11_res. Qed.
+Print Assumptions C08_parse_sound_all11_res.
+
+Theorem C08_parse_sound_and_complete_all11 :
+  forall text opt d,
+  in_fragment_all11 text = true -> allow_dtd opt = true -> parse text opt = Ok d ->
+  exists c : S6.doc, S11.wf_doc c = true /\ S11.render c = text /\
+    (N.of_nat (length (S11.sem c)) < nodes_limit opt -> N.of_nat (length (S11.sem c)) < u32_max -> N.of_nat (S11.nattrs c) < u32_max ->
+     CstNsView.view text d = Some (S11.sem c)).
+Proof. exact parse_sound_and_complete_all11. Qed.
+Print Assumptions C08_parse_sound_and_complete_all11.
+
+Theorem C08_parse_sound_and_complete_all11_nl :
+  forall text opt d,
+  in_fragment_all11 text = true -> allow_dtd opt = true -> parse text opt = Ok d ->
+  exists c : S6.doc, S11.wf_doc c = true /\ S11.render c = text /\
+    S11.distinct_decls_le c (N.to_nat 65535) /\ 1 + N.of_nat (S11.ns_cost c) <= u32_max /\
+    (N.of_nat (length (S11.sem c)) < u32_max -> N.of_nat (S11.nattrs c) < u32_max -> CstNsView.view text d = Some (S11.sem c)).
+Proof. exact parse_sound_and_complete_all11_nl. Qed.
+Print Assumptions C08_parse_sound_and_complete_all11_nl.
+
+End G19.
+
+(* ---- Proofs/CstSoundAll11.v ---- *)
+Module G20.
+Import RX.Spec.CstFull. Import RX.Spec.CstFullS5. Import RX.Spec.CstFullS6. Import RX.Spec.CstFullS7. Import RX.Spec.CstFullS8. Import RX.Spec.CstFullS9. Import RX.Spec.CstFullS10. Import RX.Spec.CstFullS11. Import RX.Proofs.CstNsView. Import RX.Proofs.CstSoundP. Import RX.Proofs.CstSound6. Import RX.Proofs.CstSound6U. Import RX.Proofs.CstSound7. Import RX.Proofs.CstSound8. Import RX.Proofs.CstSound9. Import RX.Proofs.CstSound10. Import RX.Proofs.CstSound11. Import RX.Proofs.CstSoundCr. Import RX.Proofs.CstSoundCrFinal. Import RX.Proofs.CstSoundAll. Import RX.Proofs.CstSoundAll11. 
+Theorem C08_parse_sound_all11 :
+  forall text opt d,
+  in_fragment_all11 text = true -> allow_dtd opt = true -> parse text opt = Ok d ->
+  exists c : S6.doc, S11.wf_doc c = true /\ S11.render c = text.
+Proof. exact parse_sound_all11. Qed.
+Print Assumptions C08_parse_sound_all11.
+
+End G20.
+
+(* ---- Proofs/CstSoundAllCor.v ---- *)
+Module G21.
 Import RX.Spec.CstFull. Import RX.Spec.CstFullS5. Import RX.Spec.CstFullS6. Import RX.Spec.CstFullS7. Import RX.Spec.CstFullS8. Import RX.Spec.CstFullS9. Import RX.Spec.CstFullS10. Import RX.Proofs.CstNsView. Import RX.Proofs.CstSoundP. Import RX.Proofs.CstSound6. Import RX.Proofs.CstSound6U. Import RX.Proofs.CstSound7. Import RX.Proofs.CstSound8. Import RX.Proofs.CstSound9. Import RX.Proofs.CstSound10. Import RX.Proofs.CstSoundCr. Import RX.Proofs.CstSoundCrFinal. Import RX.Proofs.CstSoundAll. Import RX.Proofs.CstSoundAllCor.
 Theorem C08_parse_sound_all_res :
   forall text opt d,
@@ -543,10 +586,10 @@ Theorem C08_parse_sound_and_complete_all_nl :
 Proof. exact parse_sound_and_complete_all_nl. Qed.
 Print Assumptions C08_parse_sound_and_complete_all_nl.
 
-End G19.
+End G21.
 
 (* ---- Proofs/CstSoundAll.v ---- *)
-Module G20.
+Module G22.
 Import RX.Spec.CstFull. Import RX.Spec.CstFullS5. Import RX.Spec.CstFullS6. Import RX.Spec.CstFullS7. Import RX.Spec.CstFullS8. Import RX.Spec.CstFullS9. Import RX.Spec.CstFullS10. Import RX.Proofs.CstNsView. Import RX.Proofs.CstSoundP. Import RX.Proofs.CstSound6. Import RX.Proofs.CstSound6U. Import RX.Proofs.CstSound7. Import RX.Proofs.CstSound8. Import RX.Proofs.CstSound9. Import RX.Proofs.CstSound10. Import RX.Proofs.CstSoundCr. Import RX.Proofs.CstSoundCrFinal. Import RX.Proofs.CstSoundAll. 
 Theorem C08_parse_sound_all :
   forall text opt d,
@@ -555,10 +598,10 @@ Theorem C08_parse_sound_all :
 Proof. exact parse_sound_all. Qed.
 Print Assumptions C08_parse_sound_all.
 
-End G20.
+End G22.
 
 (* ---- Proofs/CstSound10eCor.v ---- *)
-Module G21.
+Module G23.
 Import RX.Spec.CstFull. Import RX.Spec.CstFullS5. Import RX.Spec.CstFullS6. Import RX.Spec.CstFullS7. Import RX.Spec.CstFullS8. Import RX.Spec.CstFullS9. Import RX.Spec.CstFullS10. Import RX.Proofs.CstNsView. Import RX.Proofs.CstSoundP. Import RX.Proofs.CstSound6. Import RX.Proofs.CstSound6U. Import RX.Proofs.CstSound7. Import RX.Proofs.CstSound8. Import RX.Proofs.CstSound9. Import RX.Proofs.CstSound10. Import RX.Proofs.CstSoundCr. Import RX.Proofs.CstSoundCrFinal. Import RX.Proofs.CstSoundAll. Import RX.Proofs.CstSound10eCor.
 Theorem C08_parse_sound_fragment_10_res :
   forall text opt d,
@@ -577,10 +620,10 @@ Theorem C08_parse_sound_and_complete_10 :
 Proof. exact parse_sound_and_complete_10. Qed.
 Print Assumptions C08_parse_sound_and_complete_10.
 
-End G21.
+End G23.
 
 (* ---- Proofs/CstSoundCrFinal.v ---- *)
-Module G22.
+Module G24.
 Import RX.Spec.CstFull. Import RX.Spec.CstFullS5. Import RX.Spec.CstFullS6. Import RX.Spec.CstFullS7. Import RX.Spec.CstFullS8. Import RX.Proofs.CstSoundP. Import RX.Proofs.CstSound6. Import RX.Proofs.CstSound6U. Import RX.Proofs.CstSound7. Import RX.Proofs.CstSound8. Import RX.Proofs.CstSoundCr. Import RX.Proofs.CstSoundCrLex2. Import RX.Proofs.CstSoundCrFinal.
 Theorem C08_parse_sound_fragment_8cr2 :
   forall text opt d,
@@ -589,10 +632,10 @@ Theorem C08_parse_sound_fragment_8cr2 :
 Proof. exact parse_sound_fragment_8cr2. Qed.
 Print Assumptions C08_parse_sound_fragment_8cr2.
 
-End G22.
+End G24.
 
 (* ---- Proofs/CstSound11Final.v ---- *)
-Module G23.
+Module G25.
 Import RX.Spec.CstFull. Import RX.Spec.CstFullS5. Import RX.Spec.CstFullS6. Import RX.Spec.CstFullS7. Import RX.Spec.CstFullS8. Import RX.Spec.CstFullS9. Import RX.Spec.CstFullS10. Import RX.Spec.CstFullS11. Import RX.Proofs.CstNsView. Import RX.Proofs.CstSoundP. Import RX.Proofs.CstSound6. Import RX.Proofs.CstSound6U. Import RX.Proofs.CstSound7. Import RX.Proofs.CstSound8. Import RX.Proofs.CstSound9. Import RX.Proofs.CstSound10. Import RX.Proofs.CstSound11. Import RX.Proofs.CstSound11Final.
 Theorem C08_parse_sound_fragment_11 :
   forall text opt d,
@@ -611,10 +654,10 @@ Theorem C08_parse_sound_and_complete_11_hyp :
 Proof. exact parse_sound_and_complete_11_hyp. Qed.
 Print Assumptions C08_parse_sound_and_complete_11_hyp.
 
-End G23.
+End G25.
 
 (* ---- Proofs/CstSound10Final.v ---- *)
-Module G24.
+Module G26.
 Import RX.Spec.CstFull. Import RX.Spec.CstFullS5. Import RX.Spec.CstFullS6. Import RX.Spec.CstFullS7. Import RX.Spec.CstFullS8. Import RX.Spec.CstFullS9. Import RX.Spec.CstFullS10. Import RX.Proofs.CstNsView. Import RX.Proofs.CstSoundP. Import RX.Proofs.CstSound6. Import RX.Proofs.CstSound6U. Import RX.Proofs.CstSound7. Import RX.Proofs.CstSound8. Import RX.Proofs.CstSound9. Import RX.Proofs.CstSound10. Import RX.Proofs.CstSound10Final.
 Theorem C08_parse_sound_fragment_10 :
   forall text opt d,
@@ -633,10 +676,10 @@ Theorem C08_parse_sound_and_complete_10_hyp :
 Proof. exact parse_sound_and_complete_10_hyp. Qed.
 Print Assumptions C08_parse_sound_and_complete_10_hyp.
 
-End G24.
+End G26.
 
 (* ---- Proofs/CstSound9Final.v ---- *)
-Module G25.
+Module G27.
 Import RX.Spec.CstFull. Import RX.Spec.CstFullS5. Import RX.Spec.CstFullS6. Import RX.Spec.CstFullS7. Import RX.Spec.CstFullS8. Import RX.Spec.CstFullS9. Import RX.Proofs.CstNsView. Import RX.Proofs.CstSoundP. Import RX.Proofs.CstSound6. Import RX.Proofs.CstSound6U. Import RX.Proofs.CstSound7. Import RX.Proofs.CstSound8. Import RX.Proofs.CstSound9. Import RX.Proofs.CstSound9Final.
 Theorem C08_parse_sound_fragment_9 :
   forall text opt d,
@@ -655,10 +698,10 @@ Theorem C08_parse_sound_and_complete_9_hyp :
 Proof. exact parse_sound_and_complete_9_hyp. Qed.
 Print Assumptions C08_parse_sound_and_complete_9_hyp.
 
-End G25.
+End G27.
 
 (* ---- Proofs/CstSound8Cor.v ---- *)
-Module G26.
+Module G28.
 Import RX.Spec.CstFull. Import RX.Spec.CstFullS5. Import RX.Spec.CstFullS6. Import RX.Spec.CstFullS7. Import RX.Spec.CstFullS8. Import RX.Spec.CstFullS9. Import RX.Proofs.CstNsView. Import RX.Proofs.CstSoundP. Import RX.Proofs.CstSound6. Import RX.Proofs.CstSound6U. Import RX.Proofs.CstSound7. Import RX.Proofs.CstSound8. Import RX.Proofs.CstSound8Cor.
 Theorem C08_parse_sound_and_complete_8_hyp :
   forall text opt d,
@@ -670,10 +713,10 @@ Theorem C08_parse_sound_and_complete_8_hyp :
 Proof. exact parse_sound_and_complete_8_hyp. Qed.
 Print Assumptions C08_parse_sound_and_complete_8_hyp.
 
-End G26.
+End G28.
 
 (* ---- Proofs/CstSound7Final.v ---- *)
-Module G27.
+Module G29.
 Import RX.Spec.CstFull. Import RX.Spec.CstFullS5. Import RX.Spec.CstFullS6. Import RX.Spec.CstFullS7. Import RX.Spec.CstFullS8. Import RX.Proofs.CstSoundP. Import RX.Proofs.CstSound6. Import RX.Proofs.CstSound6U. Import RX.Proofs.CstSound7. Import RX.Proofs.CstSound7Final.
 Theorem C08_parse_sound_fragment_7 :
   forall text opt d,
@@ -682,10 +725,10 @@ Theorem C08_parse_sound_fragment_7 :
 Proof. exact parse_sound_fragment_7. Qed.
 Print Assumptions C08_parse_sound_fragment_7.
 
-End G27.
+End G29.
 
 (* ---- Proofs/CstSound8Final.v ---- *)
-Module G28.
+Module G30.
 Import RX.Spec.CstFull. Import RX.Spec.CstFullS5. Import RX.Spec.CstFullS6. Import RX.Spec.CstFullS7. Import RX.Spec.CstFullS8. Import RX.Proofs.CstSoundP. Import RX.Proofs.CstSound6. Import RX.Proofs.CstSound6U. Import RX.Proofs.CstSound7. Import RX.Proofs.CstSound8. Import RX.Proofs.CstSound8Final.
 Theorem C08_parse_sound_fragment_8 :
   forall text opt d,
@@ -694,10 +737,10 @@ Theorem C08_parse_sound_fragment_8 :
 Proof. exact parse_sound_fragment_8. Qed.
 Print Assumptions C08_parse_sound_fragment_8.
 
-End G28.
+End G30.
 
 (* ---- Proofs/CstSound6dFinal.v ---- *)
-Module G29.
+Module G31.
 Import RX.Spec.CstFull. Import RX.Spec.CstFullS5. Import RX.Spec.CstFullS6. Import RX.Proofs.CstNsView. Import RX.Proofs.CstSoundP. Import RX.Proofs.CstSound6. Import RX.Proofs.CstSound6U. Import RX.Proofs.CstSound6dFinal.
 Theorem C08_parse_sound_fragment_6 :
   forall text opt d,
@@ -706,10 +749,10 @@ Theorem C08_parse_sound_fragment_6 :
 Proof. exact parse_sound_fragment_6. Qed.
 Print Assumptions C08_parse_sound_fragment_6.
 
-End G29.
+End G31.
 
 (* ---- Proofs/CstSound6eCor.v ---- *)
-Module G30.
+Module G32.
 Import RX.Spec.CstFull. Import RX.Spec.CstFullS5. Import RX.Spec.CstFullS6. Import RX.Proofs.CstNsView. Import RX.Proofs.CstSoundP. Import RX.Proofs.CstSound6. Import RX.Proofs.CstSound6U. Import RX.Proofs.CstSound6eCor.
 Theorem C08_parse_sound_fragment_6_res :
   forall text opt d,
@@ -737,10 +780,10 @@ Theorem C08_parse_sound_and_complete_6_nl :
 Proof. exact parse_sound_and_complete_6_nl. Qed.
 Print Assumptions C08_parse_sound_and_complete_6_nl.
 
-End G30.
+End G32.
 
 (* ---- Proofs/CstSound6cFinal.v ---- *)
-Module G31.
+Module G33.
 Import RX.Spec.CstFull. Import RX.Spec.CstFullS5. Import RX.Spec.CstFullS6. Import RX.Proofs.CstSoundP. Import RX.Proofs.CstSound6. Import RX.Proofs.CstSound6U. Import RX.Proofs.CstSound6a. Import RX.Proofs.CstSound6c. Import RX.Proofs.CstSound6cFinal.
 Theorem C08_parse_sound_fragment_6c :
   forall text opt d,
@@ -749,10 +792,10 @@ Theorem C08_parse_sound_fragment_6c :
 Proof. exact parse_sound_fragment_6c. Qed.
 Print Assumptions C08_parse_sound_fragment_6c.
 
-End G31.
+End G33.
 
 (* ---- Proofs/CstSound6aFinal.v ---- *)
-Module G32.
+Module G34.
 Import RX.Spec.CstFull. Import RX.Spec.CstFullS5. Import RX.Spec.CstFullS6. Import RX.Proofs.CstSoundP. Import RX.Proofs.CstSound6. Import RX.Proofs.CstSound6U. Import RX.Proofs.CstSound6a. Import RX.Proofs.CstSound6aFinal.
 Theorem C08_parse_sound_fragment_6a1 :
   forall text opt d,
@@ -761,10 +804,10 @@ Theorem C08_parse_sound_fragment_6a1 :
 Proof. exact parse_sound_fragment_6a1. Qed.
 Print Assumptions C08_parse_sound_fragment_6a1.
 
-End G32.
+End G34.
 
 (* ---- Proofs/KnownFindingsMore.v ---- *)
-Module G33.
+Module G35.
 Import RX.Proofs.CstNsView. Import RX.Proofs.KnownFindingsMore.
 Theorem C08_d27_refuted :
   exists x : document,
@@ -785,10 +828,10 @@ Theorem C08_d29_refuted :
 Proof. exact d29_refuted. Qed.
 Print Assumptions C08_d29_refuted.
 
-End G33.
+End G35.
 
 (* ---- Proofs/KnownFindingsD21.v ---- *)
-Module G34.
+Module G36.
 Import RX.Spec.CstNs. Import RX.Proofs.NsRejDefs. Import RX.Proofs.NsRejBuild. Import RX.Proofs.NsRejMain. Import RX.Proofs.KnownFindingsD21.
 Theorem C08_d21_refuted :
   exists (c : doc) (d : document),
@@ -815,10 +858,10 @@ Theorem C08_d21_outside_class_variant :
 Proof. exact d21_outside_class_variant. Qed.
 Print Assumptions C08_d21_outside_class_variant.
 
-End G34.
+End G36.
 
 (* ---- Proofs/NsRejMain.v ---- *)
-Module G35.
+Module G37.
 Import CstNs.
 Theorem C08_ns_violation_rejected :
   forall (c : doc) (opt : options),
@@ -831,10 +874,10 @@ Theorem C08_ns_violation_rejected :
 Proof. exact ns_violation_rejected. Qed.
 Print Assumptions C08_ns_violation_rejected.
 
-End G35.
+End G37.
 
 (* ---- Proofs/CstFullRejS11NsMain.v ---- *)
-Module G36.
+Module G38.
 Import RX.Spec.CstFull. Import RX.Spec.CstFullS4. Import RX.Spec.CstFullS6. Import RX.Spec.CstFullS11. Import RX.Proofs.CstNsView. Import RX.Proofs.CstFullS11Main. Import RX.Proofs.NsRejDefs. Import RX.Proofs.NsRejBuild. Import RX.Proofs.CstFullRejSem. Import RX.Proofs.CstFullRejS11Sem. Import RX.Proofs.CstFullRejTrace. Import RX.Proofs.CstFullRejS11Doc. Import RX.Proofs.CstFullRejMain. Import RX.Proofs.CstFullRejS11Main. Import RX.Proofs.CstFullNsRejMain. Import RX.Proofs.CstFullRejS11NsMain.
 Theorem C08_ns_violation_rejected_full_s11 :
   forall (d : S6.doc) (opt : options) (cT : CstFull.doc bpieces) (tr : list Detector.lop),
@@ -853,10 +896,10 @@ Theorem C08_ns_violation_rejected_full_s11 :
 Proof. exact ns_violation_rejected_full_s11. Qed.
 Print Assumptions C08_ns_violation_rejected_full_s11.
 
-End G36.
+End G38.
 
 (* ---- Proofs/CstFullNsRejMain.v ---- *)
-Module G37.
+Module G39.
 Import RX.Spec.CstFull. Import RX.Spec.CstFullS4. Import RX.Spec.CstFullS6. Import RX.Proofs.CstNsView. Import RX.Proofs.CstFullS6Main. Import RX.Proofs.NsRejDefs. Import RX.Proofs.NsRejBuild. Import RX.Proofs.CstFullRejSem. Import RX.Proofs.CstFullRejTrace. Import RX.Proofs.CstFullRejDoc. Import RX.Proofs.CstFullRejMain. Import RX.Proofs.CstFullNsRejMain.
 Theorem C08_ns_violation_rejected_full_s6 :
   forall (d : S6.doc) (opt : options) (cT : CstFull.doc bpieces) (tr : list Detector.lop),
@@ -875,4 +918,4 @@ Theorem C08_ns_violation_rejected_full_s6 :
 Proof. exact ns_violation_rejected_full_s6. Qed.
 Print Assumptions C08_ns_violation_rejected_full_s6.
 
-End G37.
+End G39.
